@@ -313,6 +313,10 @@ def literal_ok(n):
 
 
 def uf(name, *args):
+    # native meaning of symbols the deductive side leaves uninterpreted, where one exists
+    if name == "lower_dataclass_call" and len(args) == 1 and isinstance(args[0], ast.Call) \
+            and not isinstance(args[0].func, ast.Constant):
+        return args[0]          # not a dataclass / named-tuple constructor: visit_Call keeps it
     raise NotImplementedError(f"uninterpreted symbol {name} has no native meaning")
 
 
